@@ -31,6 +31,19 @@ fn replay_content_identity() {
         let total: usize = plan.iter().sum();
         let content: Vec<u8> = (0..total).map(|i| (i as u8).wrapping_mul(31).wrapping_add(n as u8)).collect();
         let key = format!("k{n}");
+        // the counterexample's start state: the operation's key may already hold OTHER content of another length
+        let pre_present = (|| {
+            let keys = v["keys"].as_array()?;
+            let pk = v["pk"].as_array()?;
+            let k = v["op_key"].as_i64()?;
+            let i = keys.iter().position(|x| x.as_i64() == Some(k))?;
+            pk.get(i)?.as_bool()
+        })().unwrap_or(false);
+        if pre_present {
+            let mut t0 = cas.put(key.clone()).unwrap();
+            t0.write(&vec![0xABu8; 37 + n]).unwrap();
+            t0.finish().unwrap();
+        }
         let mut tx = cas.put(key.clone()).unwrap();
         let mut off = 0;
         for l in plan {
